@@ -291,6 +291,9 @@ class OdeModel:
         # a local helper object that only carries the tables and the code filling them is that code, its fields plain locals
         func = scalarise_local_objects(func, _class_of)
         func = inline_generator_loops(func, _stmt_resolver)
+        # items collected into a list of records first and consumed by one loop afterwards are produced where they are consumed
+        from .normalize import fuse_collected_loops
+        func = fuse_collected_loops(func, lambda name, _pkg=pkg: record_fields(_pkg, name) is not None)
         func = scalarise_records(func, lambda name, _pkg=pkg: record_fields(_pkg, name))
         func = inline_stmt_calls(func, _stmt_resolver)
         # `rhs, jac = self._stage(..)` with the stage put back leaves `rhs, jac = <the stage's locals>`: the same tables under one name
